@@ -100,13 +100,50 @@ func (c *Ctx) acceptChecks(fn *ssa.Function, key string, sink []ssa.Instruction,
 	c.Check(okb, "accept-decoded", key, pos, "version data passed on is the result of the version's decoder and its error was checked",
 		"version data handed to FinishedFunc is not the checked result of NewVersionDataFromCborFunc ("+vb[0].Witness+")")
 	// (c) magic equality with the offered entry
+	// the comparison is recognised on the SSA values (nested descriptions are truncated at different depths in
+	// different positions): NetworkMagic(<the data passed on>) == NetworkMagic(<the offered entry>)
+	magicFacts := map[string]bool{}
+	for _, b := range fn.Blocks {
+		iff, ok := b.Instrs[len(b.Instrs)-1].(*ssa.If)
+		if !ok {
+			continue
+		}
+		bo, ok := iff.Cond.(*ssa.BinOp)
+		if !ok || bo.Op.String() != "==" && bo.Op.String() != "!=" {
+			continue
+		}
+		recvOf := func(v ssa.Value) ssa.Value {
+			if cl, ok := v.(*ssa.Call); ok && cl.Call.IsInvoke() && cl.Call.Method.Name() == "NetworkMagic" {
+				return cl.Call.Value
+			}
+			return nil
+		}
+		rx, ry := recvOf(bo.X), recvOf(bo.Y)
+		if rx == nil || ry == nil {
+			continue
+		}
+		isData := func(v ssa.Value) bool { return desc(v) == data }
+		isOffered := func(v ssa.Value) bool { return offeredEntry != "" && desc(v) == offeredEntry }
+		if isData(rx) && isOffered(ry) || isData(ry) && isOffered(rx) {
+			tf, ff := condFacts(iff.Cond)
+			if bo.Op.String() == "==" {
+				for _, f := range tf {
+					magicFacts[f] = true
+				}
+			} else {
+				for _, f := range ff {
+					magicFacts[f] = true
+				}
+			}
+		}
+	}
 	vc := c.mustPass(fn, sink, func(f string) bool {
 		if offeredEntry == "" {
 			return false
 		}
 		a := "call:protocol.VersionData.NetworkMagic(" + data + ")"
 		b := "call:protocol.VersionData.NetworkMagic(" + offeredEntry + ")"
-		return f == a+" == "+b || f == b+" == "+a
+		return f == a+" == "+b || f == b+" == "+a || magicFacts[f]
 	})
 	c.Check(vc[0].OK, "accept-magic", key, pos, "dominated by NetworkMagic(decoded) == NetworkMagic(offered entry)",
 		"FinishedFunc is reachable without the accepted network magic having been compared with the offered one ("+vc[0].Witness+")")
